@@ -663,35 +663,49 @@ func (x *exec) runCold() (res result) {
 	w := x.w
 	cs := x.cs
 	x.phase = "cold-connect"
-	x.setRefusals(cs.Refusals + 1) // the dial of Open itself + Refusals retries
-	if err := w.Open(); err != nil {
-		res.fail = x.failf("cold-open-error", "Open(OpenBackground) towards a refusing peer returned %v", err)
-		return res
+	// Arg = number of earlier complete cold-start ... Close cycles on the SAME connection object:
+	// a re-opened connection must retry its failed first dial exactly like a fresh one
+	var allGaps [][]time.Duration
+	for cycle := 0; cycle <= cs.Arg; cycle++ {
+		if cycle > 0 {
+			x.phase = fmt.Sprintf("cold-connect-after-%d-close", cycle)
+			drain(x.acceptedCh)
+			drain(x.listenedCh)
+			_ = x.p.Close()
+			w.Settle()
+		}
+		base := len(x.attemptLog())
+		x.setRefusals(cs.Refusals + 1) // the dial of Open itself + Refusals retries
+		if err := w.Open(); err != nil {
+			res.fail = x.failf("cold-open-error", "Open(OpenBackground) towards a refusing peer returned %v (open/close cycles before: %d)", err, cycle)
+			return res
+		}
+		log := x.attemptLog()[base:]
+		if len(log) != 1 || log[0].OK {
+			res.harness = fmt.Sprintf("cold: attempts after Open: %v", log)
+			return res
+		}
+		if g := w.C.Metrics().Reconnecting(); g <= 0 {
+			res.fail = x.failf("reconnecting-gauge", "Reconnecting()=%d while the initial connect is being retried (open/close cycles before: %d)", g, cycle)
+			return res
+		}
+		f, gaps := x.awaitBack(log[0].At, base+1, cs.Refusals, 0)
+		allGaps = append(allGaps, gaps)
+		if f != nil {
+			res.fail = f
+			return res
+		}
+		if f := x.verifySession(0); f != nil {
+			res.fail = f
+			return res
+		}
+		if f := x.closeAndWatch(); f != nil {
+			res.fail = f
+			return res
+		}
 	}
-	log := x.attemptLog()
-	if len(log) != 1 || log[0].OK {
-		res.harness = fmt.Sprintf("cold: attempts after Open: %v", log)
-		return res
-	}
-	if g := w.C.Metrics().Reconnecting(); g <= 0 {
-		res.fail = x.failf("reconnecting-gauge", "Reconnecting()=%d while the initial connect is being retried", g)
-		return res
-	}
-	f, gaps := x.awaitBack(log[0].At, 1, cs.Refusals, 0)
-	if f != nil {
-		res.fail = f
-		return res
-	}
-	if f := x.verifySession(0); f != nil {
-		res.fail = f
-		return res
-	}
-	if f := x.closeAndWatch(); f != nil {
-		res.fail = f
-		return res
-	}
-	res.outcome = "active:cold-start:recovered"
-	res.sample = map[string]any{"case": cs, "attempt_gaps": fmt.Sprint(gaps), "attempts": x.attemptLog()}
+	res.outcome = fmt.Sprintf("active:cold-start:cycles=%d:recovered", cs.Arg+1)
+	res.sample = map[string]any{"case": cs, "attempt_gaps": fmt.Sprint(allGaps), "attempts": x.attemptLog()}
 	return res
 }
 
